@@ -364,15 +364,29 @@ impl Ord for Num {
             (Self::Int(i), Self::Float(f)) => float_cmp(*i as f64, *f),
             (Self::BigInt(x), Self::Int(y)) => (**x).cmp(&BigInt::from(*y)),
             (Self::BigInt(x), Self::BigInt(y)) => x.cmp(y),
-            // BigInt::to_f64 always yields Some, large values become f64::INFINITY
-            (Self::BigInt(x), Self::Float(y)) => float_cmp(x.to_f64().unwrap(), *y),
+            (Self::BigInt(x), Self::Float(y)) => big_float_cmp(x, *y),
             (Self::Float(f), Self::Int(i)) => float_cmp(*f, *i as f64),
-            (Self::Float(x), Self::BigInt(y)) => float_cmp(*x, y.to_f64().unwrap()),
+            (Self::Float(x), Self::BigInt(y)) => big_float_cmp(y, *x).reverse(),
             (Self::Float(x), Self::Float(y)) => float_cmp(*x, *y),
             (Self::Dec(x), Self::Dec(y)) if Rc::ptr_eq(x, y) => Ordering::Equal,
             (Self::Dec(n), y) => Self::from_dec_str(n).cmp(y),
             (x, Self::Dec(n)) => x.cmp(&Self::from_dec_str(n)),
         }
+    }
+}
+
+/// Compare a big integer with a float.
+///
+/// Every integer lies strictly between the infinities,
+/// also when its conversion to a float overflows to infinity.
+fn big_float_cmp(left: &BigInt, right: f64) -> Ordering {
+    if right == f64::INFINITY {
+        Ordering::Less
+    } else if right == f64::NEG_INFINITY {
+        Ordering::Greater
+    } else {
+        // BigInt::to_f64 always yields Some, large values become f64::INFINITY
+        float_cmp(left.to_f64().unwrap(), right)
     }
 }
 
